@@ -277,10 +277,12 @@ Definition mk_date (ns : Z) : res value := if date_ok ns then Ok (VDate ns) else
 (** [i32::try_from] *)
 Definition in_i32 (z : Z) : bool := (- 2 ^ 31 <=? z) && (z <? 2 ^ 31).
 
-Definition int_or_float (exact : Z) (fl : f64) : value :=
-  (* out of range: the float computation, normalised like every number (an integral in-range double is an Int): the invariant
-     behind == / hashing / ordering; 00e4db6 broke it and 2nd-hunt agents found < == > all false, reverted *)
-  if in_i64 exact then VInt exact else from_float fl.
+Definition int_or_float (exact : Z) (fl : f64) : res value :=
+  (* out of range: the float computation - unless that float is itself an integer in range (only -2^63, for results in
+     [-2^63 - 1024, -2^63)): it would come out as the integer i64::MIN, a saturated value; that row is an error (fix 9eb768d).
+     Keeping it a Float instead broke the invariant behind == / hashing / ordering (00e4db6, withdrawn by d2a8efa) *)
+  if in_i64 exact then Ok (VInt exact)
+  else match from_float fl with VInt _ => Err | v => Ok v end.
 
 Definition vadd_typed (l r : value) : res value :=
   match l, r with
@@ -288,7 +290,7 @@ Definition vadd_typed (l r : value) : res value :=
   | VDur u, VDate d => mk_date (d + u)
   | VDur a, VDur b => mk_dur (a + b)
   | VFloat a, VFloat b => Ok (from_float (fadd a b))
-  | VInt a, VInt b => Ok (int_or_float (a + b) (fadd (f_of_Z a) (f_of_Z b)))
+  | VInt a, VInt b => int_or_float (a + b) (fadd (f_of_Z a) (f_of_Z b))
   | _, _ => binary_op fadd l r
   end.
 
@@ -298,7 +300,7 @@ Definition vsub_typed (l r : value) : res value :=
   | VDate a, VDate b => mk_dur (a - b)
   | VDur a, VDur b => mk_dur (a - b)
   | VFloat a, VFloat b => Ok (from_float (fsub a b))
-  | VInt a, VInt b => Ok (int_or_float (a - b) (fsub (f_of_Z a) (f_of_Z b)))
+  | VInt a, VInt b => int_or_float (a - b) (fsub (f_of_Z a) (f_of_Z b))
   | _, _ => binary_op fsub l r
   end.
 
@@ -307,7 +309,7 @@ Definition vmul_typed (l r : value) : res value :=
   | VDur a, VInt b => mk_dur (a * b)            (* on the nanosecond count, any integer factor (fix 0992468) *)
   | VInt a, VDur b => mk_dur (b * a)
   | VFloat a, VFloat b => Ok (from_float (fmul a b))
-  | VInt a, VInt b => Ok (int_or_float (a * b) (fmul (f_of_Z a) (f_of_Z b)))
+  | VInt a, VInt b => int_or_float (a * b) (fmul (f_of_Z a) (f_of_Z b))
   | _, _ => binary_op fmul l r
   end.
 
